@@ -288,6 +288,15 @@ func clipView(s string, w, h int) []string {
 	return out
 }
 
+// clipRaw: the last h lines of a view, not truncated.
+func clipRaw(s string, h int) []string {
+	lines := strings.Split(s, "\n")
+	if h > 0 && len(lines) > h {
+		lines = lines[len(lines)-h:]
+	}
+	return lines
+}
+
 func wrapRows(l string, w int) []string {
 	if len(l) == 0 {
 		return []string{""}
@@ -342,6 +351,10 @@ func runHistory(h rhistory) (res renderOutcome) {
 	}
 	curW, curH := h.w, h.h
 	viewStart := -1 // absolute row where the inline view starts (for "above" checks)
+	// the oracle's own bookkeeping, independent of the renderer's state
+	lastWritten := ""    // the most recent view handed to write ("" before any)
+	pendingWrite := false // a write happened since the last flush
+	var onScreen *string  // the view the oracle knows to be on screen (nil: unknown / disturbed)
 	for _, o := range h.ops {
 		before := rd.State()
 		out.Reset()
@@ -355,11 +368,31 @@ func runHistory(h rhistory) (res renderOutcome) {
 		t.write(written)
 		after := rd.State()
 		switch o.op {
+		case "w":
+			lastWritten = o.arg
+			if lastWritten == "" {
+				lastWritten = " " // an empty view clears the previous one
+			}
+			pendingWrite = true
+		case "ea":
+			if !before.AltScreenActive {
+				onScreen = nil
+			}
+		case "xa":
+			if before.AltScreenActive {
+				onScreen = nil
+			}
+		case "size", "rp", "st", "ki":
+			onScreen = nil // an explicit repaint request, a new size, or the end
+		}
+		switch o.op {
 		case "pl":
 			if !before.AltScreenActive {
 				queued = append(queued, strings.Split(o.arg, "\n")...)
+				onScreen = nil
 			}
 		case "cs":
+			onScreen = nil
 			if !before.AltScreenActive {
 				// clearing the screen legitimately erases what is inside the window
 				if len(above) > t.main.top {
@@ -370,12 +403,42 @@ func runHistory(h rhistory) (res renderOutcome) {
 				}
 			}
 		}
-		rendered := (o.op == "f" || o.op == "st") && before.Buf != "" && before.Buf != before.LastRender
+		rendered := (o.op == "f" || o.op == "st") && len(written) > 0 && before.Buf != "" && before.Buf != before.LastRender
+		if o.op == "f" || o.op == "st" {
+			flushBytes := len(written)
+			if o.op == "st" && flushBytes >= 5 {
+				flushBytes -= 5 // stop's own erase-line + CR
+			}
+			if pendingWrite && onScreen != nil && lastWritten == *onScreen {
+				// C19: rendering a view identical to the one on screen writes nothing
+				if flushBytes != 0 {
+					fail("C19", "rendering a view identical to the one on screen wrote bytes", "no output", fmt.Sprintf("%d bytes", flushBytes))
+				}
+			} else if pendingWrite && onScreen != nil && len(queued) == 0 {
+				// C19: unchanged lines are not retransmitted
+				oldL, newL := clipRaw(*onScreen, curH), clipRaw(lastWritten, curH)
+				budget := len(newL) + 16 + 2*len(fmt.Sprint(len(oldL)+curW))
+				for i, l := range newL {
+					if i >= len(oldL) || oldL[i] != l || (len(oldL) > len(newL) && i == len(newL)-1) {
+						budget += len(l) + 9
+					}
+				}
+				if flushBytes > budget {
+					fail("C19", "unchanged lines were retransmitted (bytes written exceed the changed lines plus per-line overhead)", fmt.Sprintf("<= %d bytes", budget), fmt.Sprintf("%d bytes", flushBytes))
+				}
+			}
+			if pendingWrite && !rendered && o.op == "f" && (onScreen == nil || lastWritten != *onScreen) && len(written) == 0 && before.Buf != "" {
+				fail("C07", "a flush did not paint the latest view although it differs from what is on screen", fmt.Sprintf("%q", lastWritten), "no output")
+			}
+		}
 		if !rendered {
-			if o.op == "f" && len(written) != 0 {
+			if o.op == "f" && len(written) != 0 && !(before.Buf != "" && before.Buf != before.LastRender) {
 				fail("C19", "flush of an unchanged (or empty) frame wrote bytes", "no output", hexOf(written))
 			}
 			if o.op != "st" {
+				if o.op == "f" {
+					pendingWrite = false
+				}
 				continue
 			}
 		}
@@ -383,8 +446,20 @@ func runHistory(h rhistory) (res renderOutcome) {
 			fail("C06", "renderer emitted a sequence outside its alphabet", "", strings.Join(t.unknown, ","))
 			t.unknown = nil
 		}
-		want := clipView(before.Buf, curW, curH)
+		expectView := before.Buf
+		if pendingWrite {
+			if lastWritten != before.Buf {
+				fail("C07", "the frame about to be painted is not the latest view written (a later view replaced by an earlier one)", fmt.Sprintf("%q", lastWritten), fmt.Sprintf("%q", before.Buf))
+			}
+			expectView = lastWritten // what must be shown is the LATEST view, whatever the renderer buffered
+		}
+		want := clipView(expectView, curW, curH)
 		n := len(want)
+		if rendered {
+			v := expectView
+			onScreen = &v
+			pendingWrite = false
+		}
 		if rendered && after.AltScreenActive {
 			b := t.alt
 			for r := 0; r < curH; r++ {
